@@ -190,6 +190,28 @@ def _carriers(ctx, cf, fp):
             if not early:
                 continue
         out[cname] = used
+    # a carrier assigned on both arms of ONE conditional: `if size is not None: effective_order = size - 1 else: effective_order = order`
+    by_name = {}
+    for n in walk_no_nested(cf.caller.node):
+        if isinstance(n, ast.Assign) and len(n.targets) == 1 and isinstance(n.targets[0], ast.Name) and n.targets[0].id not in out and n.targets[0].id not in fp:
+            by_name.setdefault(n.targets[0].id, []).append(n)
+    for cname, ds in by_name.items():
+        if len(ds) != 2:
+            continue
+        ifs = [v.enclosing(d, (ast.If,)) for d in ds]
+        if ifs[0] is None or ifs[0] is not ifs[1] or not (any(ds[0] is x for x in ifs[0].body) and any(ds[1] is x for x in ifs[0].orelse) or any(ds[1] is x for x in ifs[0].body) and any(ds[0] is x for x in ifs[0].orelse)):
+            continue
+        used = set()
+        for d in ds:
+            used |= {x.id for x in ast.walk(d.value) if isinstance(x, ast.Name) and isinstance(x.ctx, ast.Load) and x.id in fp}
+        used |= {x.id for x in ast.walk(ifs[0].test) if isinstance(x, ast.Name) and x.id in fp}
+        tid = v.cfg.by_ast.get(id(ifs[0].test))
+        if set(fp) - used or tid is None or not v.cfg.dominates(tid, cid):
+            continue
+        in_call = any(isinstance(x, ast.Name) and x.id == cname for a_ in list(cf.node.args) + [k.value for k in cf.node.keywords] for x in ast.walk(a_))
+        in_test = any(isinstance(x, ast.Name) and x.id == cname for i_ in v.enclosing_all(cf.node, (ast.If, ast.IfExp, ast.While)) for x in ast.walk(i_.test))
+        if in_call or in_test:
+            out[cname] = used
     return out
 
 
